@@ -445,6 +445,29 @@ func runC07(p *Prog, r *Report) {
 		}
 		r.Check("R-default", "serve loop: a non-positive Server.MaxRequestBodySize is replaced by the default before the first request", ok, p.Pos(fn.Pos()),
 			"the connection-level body limit is not a merge of Server.MaxRequestBodySize with a positive default")
+		// every body reader the loop calls gets that normalised value, never the raw configuration field: the readers
+		// take a non-positive limit for 'unlimited', and the raw field is 0 in the default configuration
+		nb := 0
+		for _, b := range fn.Blocks {
+			for _, in := range b.Instrs {
+				c, isCall := in.(ssa.CallInstruction)
+				if !isCall || c.Common().StaticCallee() == nil {
+					continue
+				}
+				f := c.Common().StaticCallee()
+				for i, a := range c.Common().Args {
+					if !lims[limParam{f, i}] {
+						continue
+					}
+					nb++
+					_, fv := loadedField(a)
+					raw := fv != nil && fv.Name() == "MaxRequestBodySize" && typeNameOf(rootOf(a)) != "RequestConfig"
+					r.Check("R-default", fmt.Sprintf("serve loop: the limit given to %s (limit-taking call #%d) is the normalised per-request value", shortType(calleeName(c)), nb), !raw, p.Pos(in.Pos()),
+						"the body reader is given the raw field Server.MaxRequestBodySize: it is 0 (or negative) unless configured, which the readers take for 'no limit' - on this path a body of any size is buffered, and a per-request override from HeaderReceived is ignored as well")
+				}
+			}
+		}
+		r.Floor("R-default", "limit-taking calls in the serve function", nb, 4)
 	}
 
 	// ---- R-431 ----
